@@ -22,7 +22,7 @@ CLAIMED = {
                 '(6) every Square(file, rank) built by the table initialiser has both coordinates inside 0..7 and the shift formulas of the king / knight / pawn attack tables are exactly those attack sets for all 64 squares. '
                 'direction classes pair with slider kinds, and the en-passant rank scan starts outside the pawn pair. Right level: these '
                 'are exactly the places where a generator can be wrong for one geometry only - the rule checks every square and every '
-                'board-atom assignment at once, which no sample of positions does. Added: coverage of the promotion re-scan of givesCheck as a direction x piece table evaluated from the guards. Added: (2) no condition other than the castling rules (or a givesCheck filter on the move itself) restricts a generated castling move.',
+                'board-atom assignment at once, which no sample of positions does. Added: coverage of the promotion re-scan of givesCheck as a direction x piece table evaluated from the guards. Added: (2) no condition other than the castling rules (or a givesCheck filter on the move itself) restricts a generated castling move. (7) nextPieceSafe reads the board for exactly the 64 (file, rank) pairs on it (100 pairs evaluated).',
         'design_ref': 'DESIGN.md section 2, C01',
         'note': TB + ' Takes the attack / direction / between tables (BitBoard::staticInitialize) and Position::makeMove as given; does not decide '
                      'agreement of the verdicts with playing the move for every position (value-level) nor absence of duplicates.',
@@ -39,7 +39,7 @@ CLAIMED = {
                 '(8) en-passant mask tables and guard; (9) every fresh en-passant store is normalised as readFEN does. Three genuine violations on the pinned '
                 'tree are listed in known_findings.json (compact form: 8-bit clock, 16-bit move number; makeMove keeps an illegal en-passant square). Right level: "after any history the '
                 'incremental value equals the recomputed one" holds iff every mutator updates every derived attribute consistently - a '
-                'finite set of structural obligations that cover every history, where a random walk samples. (10) one-argument setters of Position store their argument unchanged. (11) makeSEEMove / unMakeSEEMove remove and restore the same en-passant victim, evaluated for every mover piece and every outcome of the opaque comparisons. (12) the normaliser TextIO::fixupEPSquare keeps an en-passant square exactly for a legal move of the mover\'s pawn to it (all 12 pieces x 2 destinations), scans legal moves only and clears the square otherwise. (13) each take-back reads the mover\'s colour: the parity of side-to-move flips in the make function, flips before the read in the take-back and negations of the value read is even (makeMove/unMakeMove and makeMoveB/unMakeMoveB). (14) wherever a castling right is withdrawn because the board does not support it (readFEN; a reader of the compact form), the test looks at the king\'s home square and the rook corner of that right.',
+                'finite set of structural obligations that cover every history, where a random walk samples. (10) one-argument setters of Position store their argument unchanged. (11) makeSEEMove / unMakeSEEMove remove and restore the same en-passant victim, evaluated for every mover piece and every outcome of the opaque comparisons. (12) the normaliser TextIO::fixupEPSquare keeps an en-passant square exactly for a legal move of the mover\'s pawn to it (all 12 pieces x 2 destinations), scans legal moves only and clears the square otherwise. (13) each take-back reads the mover\'s colour: the parity of side-to-move flips in the make function, flips before the read in the take-back and negations of the value read is even (makeMove/unMakeMove and makeMoveB/unMakeMoveB). (14) wherever a castling right is withdrawn because the board does not support it (readFEN; a reader of the compact form), the test looks at the king\'s home square and the rook corner of that right. (15) the square setters clear the old piece\'s bit from a set before they set the new piece\'s bit in it.',
         'design_ref': 'DESIGN.md section 2, C02',
         'note': TB + ' Does not decide value-level equalities (hash equality of rule-equal positions beyond the en-passant normal form).',
         'technique': 'custom static analysis: write-set/effect analysis, colour-mirror and sibling agreement on CFG regions, dominance-based save/restore and pairing, constant evaluation over the material polytope',
@@ -66,7 +66,7 @@ CLAIMED = {
                 'TT ply shift (store at p1, read at p2), the win/loss classification and the 16-bit range. This is a genuine necessary '
                 'condition of "mate N means mate in N": any disagreement between an encoder and a decoder shifts every announced '
                 'distance. Second clause (K3 typestate): a score found by searching after a null move never leaves negaScout (return, hash store, search-tree info) unless it was shown not to be a win score or replaced by a non-win bound. Right level for the first clause: a finite arithmetic agreement; that a reported mate exists at all is game-tree '
-                'semantics and is not claimed. Added clauses (4) bound-type discipline of adopted entry scores and isCutOff, (5) ply-shift codec and decode / re-store ply agreement (shared with C08). (6) every hash store of negaScout happens only in an unrestricted search. (7) every forward-pruning skip in negaScout\'s move loop requires a non-losing running maximum (!isLoseScore(best)), so a node never reports \'mated\' with unsearched quiet defences. (8) a move deferred by the ABDADA first pass (marked BUSY - reduction) is not skipped by the second pass, for every reduction 0..15. (9) a recursive call that can be reached with the exclusive-probe request still set is followed directly by the BUSY test on its result; every other recursive call is made with the request cleared. (10) = C12.1 an installed on-demand table has its region reserved on every exit of updateTB / clear / reSize. (11) = C01.6 the tables that decide whether a double push records an en-passant square are exact for all 8 files.',
+                'semantics and is not claimed. Added clauses (4) bound-type discipline of adopted entry scores and isCutOff, (5) ply-shift codec and decode / re-store ply agreement (shared with C08). (6) every hash store of negaScout happens only in an unrestricted search. (7) every forward-pruning skip in negaScout\'s move loop requires a non-losing running maximum (!isLoseScore(best)), so a node never reports \'mated\' with unsearched quiet defences. (8) a move deferred by the ABDADA first pass (marked BUSY - reduction) is not skipped by the second pass, for every reduction 0..15. (9) a recursive call that can be reached with the exclusive-probe request still set is followed directly by the BUSY test on its result; every other recursive call is made with the request cleared. (10) = C12.1 an installed on-demand table has its region reserved on every exit of updateTB / clear / reSize. (11) = C01.6 the tables that decide whether a double push records an en-passant square are exact for all 8 files. (12) around the null move, the value restored with setEpSquare / setHalfMoveClock was saved before that setter cleared it.',
         'design_ref': 'DESIGN.md section 2, C04',
         'note': TB + ' Decides only the encoding agreement, not the existence of the announced mates nor the soundness of pruning near mate scores.',
         'technique': 'custom static analysis: exhaustive constant evaluation of extracted expression trees over a finite domain (encoder/decoder composition)',
@@ -84,7 +84,7 @@ CLAIMED = {
                 'including ponder + ponderhit (found and fixed defect D11); (13) lock discipline of the session output stream: every '
                 'insertion holds one common mutex, which is never re-acquired or held across a wait (found and fixed defect D10). '
                 'Right level: these are exactly the failure shapes the property names (crash before initialisation, two/zero '
-                'bestmoves, output after bestmove), and they are visible in the shape of the code for all histories at once. C05.5 now decides that every way out of the protocol loop stops a running search (state flow); (14) every strength-limiting parameter forces a single search thread. (15) wait loops poll with a handler that counts the acknowledgements (shared with C10.10). (16) = C10.11: the two computations of `infinite` agree. (17) = C10.12 isready never blocks on an engine thread that is holding its answer. (18) = C03.6 the MultiPV count that indexes the root list is clamped to that list.',
+                'bestmoves, output after bestmove), and they are visible in the shape of the code for all histories at once. C05.5 now decides that every way out of the protocol loop stops a running search (state flow); (14) every strength-limiting parameter forces a single search thread. (15) wait loops poll with a handler that counts the acknowledgements (shared with C10.10). (16) = C10.11: the two computations of `infinite` agree. (17) = C10.12 isready never blocks on an engine thread that is holding its answer. (18) = C03.6 the MultiPV count that indexes the root list is clamped to that list. (19) = C12.1 a Hash change or Clear Hash never leaves a tablebase handle that points outside the table.',
         'design_ref': 'DESIGN.md section 2, C05',
         'note': TB + ' Assumes: bad_alloc from ordinary allocation and the embedded-network integrity error are out of scope (named exemptions).',
         'technique': 'custom static analysis: null typestate dataflow + exception-flow + must-pass-through/who-may-call over clang AST/CFG/call graph',
@@ -131,7 +131,7 @@ CLAIMED = {
                 '(6) index bound: floor-halving loop lemma for setUsedSize + exact constant evaluation of getIndex at the extreme key '
                 'for every (topBits, shift) of the domain gives idx+3 < topBits*2^shift <= usedSize (all sizes >= 512 entries, all keys). '
                 'Right level: "never a blend", "inside the table for every size and key" quantify over schedules/sizes/keys; the type, '
-                'codec and arithmetic obligations cover them all at once where a stress test samples. Added clauses: region agreement of byteSize(), (8) key comparisons of the replaced entry precede the overwrite of its key. (9) reSize keeps the class invariant at every point that may throw. (3, revised) every value the generation counter takes fits its field, or setBits confines an over-wide value to the field (evaluated; replaces a comparison of the wrap mask with the field width).',
+                'codec and arithmetic obligations cover them all at once where a stress test samples. Added clauses: region agreement of byteSize(), (8) key comparisons of the replaced entry precede the overwrite of its key. (9) reSize keeps the class invariant at every point that may throw. (3, revised) every value the generation counter takes fits its field, or setBits confines an over-wide value to the field (evaluated; replaces a comparison of the wrap mask with the field width). (10) updateTB installs a generator only in a table larger than the reservation plus its margin (admission test evaluated with unsigned wrap for 1 .. 64 MB).',
         'design_ref': 'DESIGN.md section 2, C08',
         'note': TB + ' Does not decide torn-read freedom beyond "atomics + xor validation are in place" (memory-model argument).',
         'technique': 'custom static analysis: who-may-access + index provenance + sibling/inverse agreement + constant evaluation over finite parameter domains with a loop-idiom lemma',
@@ -147,7 +147,7 @@ CLAIMED = {
                 'The options hand-over is decided by the completion-flag typestate (optionsSetFinished set only under the mutex with the pending queue and every swapped-out batch known empty). '
                 'variables written after start-up. Right level: race freedom quantifies over all interleavings; a discipline check is '
                 'interleaving-independent and covers code paths a TSan run never executes. It decides the discipline, not the memory-model '
-                'theorem: rows justified by message-protocol ordering are listed as assumptions. Added clause (6): in Communicator::poll every unlocked walk of children is followed by a lock acquisition (the release that orders it before removeChild). (7) option-reading calls on the go paths come after waitOptionsSet (shared with C06.4). (8) the start-up seeding of the lazily filled maxSubDTM map covers every pawn split up to colour mirroring (loop evaluated), so search threads only look it up. (9) every Notifier::wait outside a re-checking loop waits without a time limit (the hand-over edges the table relies on). (10) ~WorkerThread destroys its sub-workers only after its own thread, which polls their communicators unlocked, has been joined - found and fixed defect D20. (11) a ThreadPool task touches an output stream of the enclosing function only to choose its own log under the single-worker test, or under a mutex.',
+                'theorem: rows justified by message-protocol ordering are listed as assumptions. Added clause (6): in Communicator::poll every unlocked walk of children is followed by a lock acquisition (the release that orders it before removeChild). (7) option-reading calls on the go paths come after waitOptionsSet (shared with C06.4). (8) the start-up seeding of the lazily filled maxSubDTM map covers every pawn split up to colour mirroring (loop evaluated), so search threads only look it up. (9) every Notifier::wait outside a re-checking loop waits without a time limit (the hand-over edges the table relies on). (10) ~WorkerThread destroys its sub-workers only after its own thread, which polls their communicators unlocked, has been joined - found and fixed defect D20. (11) a ThreadPool task touches an output stream of the enclosing function only to choose its own log under the single-worker test, or under a mutex. (12) = C10.5 the stop round after every search that ran (the premise of the engine thread\'s confinement rows).',
         'design_ref': 'DESIGN.md section 2, C09 and Appendix A',
         'note': TB + ' Does not decide race freedom in the C++ memory-model sense for the whole engine; HB-protocol rows are assumptions (listed in the evidence).',
         'technique': 'custom static analysis: lock-set dataflow (K6), field-type obligations (K7), thread-role call-graph reachability (K8), dominance-based publication checks (K2), frozen who-may-write table for static storage (K5)',
@@ -162,7 +162,7 @@ CLAIMED = {
                 'ack->poll until acknowledged, quit->poll until acknowledged, flag-sensitive "a search that ran is stopped"; (6) a wake-up '
                 'consumed by the engine thread\'s inner wait loop is re-armed or pending options are handled before it sleeps again; (7) the completion-flag typestate of optionsSetFinished (shared with C09.4). Right '
                 'level: these are the necessary structural conditions of "no lost wake-up / no stale result" for every interleaving; the '
-                'composed liveness property itself is model-checking territory and is not claimed. Added clause (9): the upward acknowledgement is sent only under a test of everything has<X>Ack() depends on. (10) agreement between acknowledgement wait loops and the handlers they poll with. (11) startSearch and ponderHit compute `infinite` from the same conjuncts. (12) a blocking wait of the protocol thread on the engine thread (waitStop / waitOptionsSet) is reached only with both hold flags cleared or when no search object exists: no circular wait with the engine thread\'s `while (*ponder || *infinite)`. (13) createWorkers returns only after every helper it constructed - new slot or replaced slot - has signalled initialized. (14) = C09.9 the waits the hand-shakes are built on do not time out silently.',
+                'composed liveness property itself is model-checking territory and is not claimed. Added clause (9): the upward acknowledgement is sent only under a test of everything has<X>Ack() depends on. (10) agreement between acknowledgement wait loops and the handlers they poll with. (11) startSearch and ponderHit compute `infinite` from the same conjuncts. (12) a blocking wait of the protocol thread on the engine thread (waitStop / waitOptionsSet) is reached only with both hold flags cleared or when no search object exists: no circular wait with the engine thread\'s `while (*ponder || *infinite)`. (13) createWorkers returns only after every helper it constructed - new slot or replaced slot - has signalled initialized. (14) = C09.9 the waits the hand-shakes are built on do not time out silently. (15) Communicator::poll removes the command it has read before it releases the queue mutex.',
         'design_ref': 'DESIGN.md section 2, C10',
         'note': TB + ' Does not decide absence of deadlock / lost wake-up over all interleavings of the composed protocol.',
         'technique': 'custom static analysis: lock-set dataflow, condition-variable discipline, must-pass-through / loop-shape rules on the CFG, sibling agreement of purge predicates',
@@ -189,7 +189,7 @@ CLAIMED = {
                 'nothing and after the whole-range draw sweep, and every time/stop test leads to return false; (3) exhaustive constant '
                 'evaluation over the 8-bit state domain shows the three answer predicates disjoint and false on every unfinished state, '
                 'and get(set(n)) == n; (4) region size/alignment/placement constants agree with the men guard. Right level: the abort '
-                'clause is a typestate property of one class, decidable for every abort point at once; distances themselves are value-level. Added clause (7): adjacent-duplicate filters of the generator and sortedness of the neighbour lists. (8) un-capture call order agrees with the special cases of TBIndex::setSquare. (7, extended) every neighbour-list loop of generate() skips adjacent duplicates, or the list is cut at std::unique where it is sorted. (9) TBPosition::setPosition succeeds only after a sweep over every piece type that fails on a man that found no slot. (10) the first sweep of the generation stores a value for every index it visits (memory inside the hash table holds stale bytes). (11) TBIndex::canonize does not re-order the pieces after the index was compared with its mirror alternative.',
+                'clause is a typestate property of one class, decidable for every abort point at once; distances themselves are value-level. Added clause (7): adjacent-duplicate filters of the generator and sortedness of the neighbour lists. (8) un-capture call order agrees with the special cases of TBIndex::setSquare. (7, extended) every neighbour-list loop of generate() skips adjacent duplicates, or the list is cut at std::unique where it is sorted. (9) TBPosition::setPosition succeeds only after a sweep over every piece type that fails on a man that found no slot. (10) the first sweep of the generation stores a value for every index it visits (memory inside the hash table holds stale bytes). (11) TBIndex::canonize does not re-order the pieces after the index was compared with its mirror alternative. (12) updateTB decides \'not enough time to generate\' only after \'the root is already in the installed table\'.',
         'design_ref': 'DESIGN.md section 2, C12',
         'note': TB + ' Does not decide the exactness of distance-to-mate values.',
         'technique': 'custom static analysis: typestate dataflow with sibling-method summaries, must-pass-through on the CFG, exhaustive constant evaluation over an 8-bit domain, constant agreement',
@@ -202,7 +202,7 @@ CLAIMED = {
                 '(2) aggressive probing is enabled only on the updateTB() == true path and probes respect minProbeDepth; (3) the PV '
                 'extension appends tablebase moves only inside the 50-move limit and only moves that keep the tablebase score. Right '
                 'level: the "not announced beyond the limit" clause is a gate-agreement fact for all positions and clocks; exact distances '
-                'and move choice are value-level (C12) and not claimed. Added clauses (5) generator typestate (shared with C12.1) and (6) a freshly generated table is consulted before the clock can abort the search (found and fixed defect D16). (7) placement order of the probe index (shared with C12.8). (8) = C12.7 duplicate filters present in every neighbour-list loop. (9) = C12.9 a probe answers only for positions of the table\'s material class. (10) = C12.11 one position, one table slot.',
+                'and move choice are value-level (C12) and not claimed. Added clauses (5) generator typestate (shared with C12.1) and (6) a freshly generated table is consulted before the clock can abort the search (found and fixed defect D16). (7) placement order of the probe index (shared with C12.8). (8) = C12.7 duplicate filters present in every neighbour-list loop. (9) = C12.9 a probe answers only for positions of the table\'s material class. (10) = C12.11 one position, one table slot. (11) = C12.12 an installed table is consulted whatever the next time budget is.',
         'design_ref': 'DESIGN.md section 2, C13',
         'note': TB + ' Does not decide exactness of reported distances or move choice.',
         'technique': 'custom static analysis: guard-set / sibling agreement of the probe blocks, constant evaluation of the margin function, dominance',
@@ -241,7 +241,7 @@ CLAIMED = {
                 'getMove; the built-in book promotion tables are inverse (constant evaluation over all codes); (3) a failed read zero-fills '
                 'exactly the bytes read before decoding, the binary search and the scan only touch indices inside the file, only entries '
                 'stored under the position key are offered. Right level: "for any file" quantifies over inputs; legality of the answer '
-                'follows from the validate-before-return structure for every file content. (4) the weight accumulator holds the largest total a file can produce and the random pick is defined for it (found and fixed defect D12). Added clause (5): file positions (entry count, indices, seek offset) are 64-bit quantities (found and fixed defect D15). (6) the weighted pick chooses entry k for exactly weight(k) draws. (1, extended) the legality filter of getBookMove is executed unconditionally. (7) the scan of the entries stored under a key ends only on a key mismatch or the end of the file: with equal keys no early exit is reachable, whatever weight or move the entry holds. (8) the castling terms of the polyglot key follow the published order (768 + 0..3: white short, white long, black short, black long).',
+                'follows from the validate-before-return structure for every file content. (4) the weight accumulator holds the largest total a file can produce and the random pick is defined for it (found and fixed defect D12). Added clause (5): file positions (entry count, indices, seek offset) are 64-bit quantities (found and fixed defect D15). (6) the weighted pick chooses entry k for exactly weight(k) draws. (1, extended) the legality filter of getBookMove is executed unconditionally. (7) the scan of the entries stored under a key ends only on a key mismatch or the end of the file: with equal keys no early exit is reachable, whatever weight or move the entry holds. (8) the castling terms of the polyglot key follow the published order (768 + 0..3: white short, white long, black short, black long). (1, revised) an entry that is not a legal move ends the probe with no move, or is removed from the candidates without the walk skipping its neighbour.',
         'design_ref': 'DESIGN.md section 2, C18',
         'note': TB + ' Assumes the legal move generator is correct (C01). Does not decide that a corrupt file never yields a legal-but-wrong move.',
         'technique': 'custom static analysis: validated-candidate typestate with per-iteration flag reset, dominance, inverse switch tables, constant evaluation, index-bound structure',
@@ -256,7 +256,7 @@ CLAIMED = {
                 'completeness of the path-error recompute set - the fields computePathError reads of the node itself / of its parents decide '
                 'which nodes updateScores must schedule when a recompute call reports a change (found and fixed defect D9). Right level: these are the structural necessary conditions of "links mutually '
                 'consistent", "save/reload reproduces the book" and "changes propagate"; the fixed-point equations themselves are '
-                'value-level over a DAG and are not claimed. Added: (2) the reader of the append-only backup log lets a later record replace the earlier one; (6) depth propagation completeness. (7) the parents of the node updateScores is called on are always recomputed. (8) every change of a pending mark is followed by updateScores (directly or through a function that always recomputes) on every path. (9) every write of a node\'s search result (score or best non-book move) is followed by updateScores on every path. (10) every child contributes to the negamax maximum (no iteration of the children loop skips the update).',
+                'value-level over a DAG and are not claimed. Added: (2) the reader of the append-only backup log lets a later record replace the earlier one; (6) depth propagation completeness. (7) the parents of the node updateScores is called on are always recomputed. (8) every change of a pending mark is followed by updateScores (directly or through a function that always recomputes) on every path. (9) every write of a node\'s search result (score or best non-book move) is followed by updateScores on every path. (10) every child contributes to the negamax maximum (no iteration of the children loop skips the update). (11) the error of the move into a node negates the child\'s value with negateScore, like the negamax equation.',
         'design_ref': 'DESIGN.md section 2, C19',
         'note': TB + ' Does not decide that scores are at the fixed point of the negamax / path-error / cost equations.',
         'technique': 'custom static analysis: call pairing on the CFG, who-may-write, sibling agreement of serialiser argument lists, snapshot/compare agreement',
